@@ -17,6 +17,7 @@ import setdef_layer         # SET / DEFAULT layer (lib/setdef_layer.py, notes/de
 import primb_layer          # restricted character strings (lib/primb_layer.py, notes/design/PrimB.md)
 import prima_layer          # ENUMERATED / BIT STRING layer (lib/prima_layer.py, notes/design/PrimA.md)
 import c01_dflt             # DEFAULT components x extension additions (lib/c01_dflt.py, coq/Rt/DefaultRt.v)
+import c01_width            # INTEGER (lb..ub), both bounds on the OER/PER width boundaries (lib/c01_width.py; model: coq/Rt/Oer.v oer_int_ct)
 
 SYNS = ["der", "cper", "coer", "xer", "cxer"]
 TIMES = {}
@@ -198,6 +199,10 @@ def main(tier):
     try:
         nm, nt, nv = (10, 5, 6) if tier == "quick" else (50, 6, 12)
         mods, cases = build_corpus(run, rng, nm, nt, nv, tier)
+        t0 = time.time()
+        wbmods, wbcases = c01_width.corpus(run, rng, tier)      # the directed width-boundary modules go through the same model tie
+        mods, cases = mods + wbmods, cases + wbcases
+        TIMES["width_build_s"] = round(time.time() - t0, 1)
         wmods = []
         if WIDE:
             wrng = Rng(rng.next())
@@ -217,6 +222,7 @@ def main(tier):
                                            "asn1c_out": m.get("asn1c_out", "")[-1200:], "build_log": m.get("build_log", "")[-1200:]})
             continue
         cs = bm.get(m["name"], [])
+        tm = time.time()
         # (a) the round trip on the C, all five syntaxes
         lines = ["rt %s der %s" % (c["tn"], c["der"]) for c in cs]
         out = run_mod(run, m, lines, "C01-rt")
@@ -257,6 +263,8 @@ def main(tier):
         if tier == "quick":
             pairs = [pairs[rng.below(len(pairs))] for _ in range(6)]
         sub = cs if tier != "quick" else cs[:12]
+        if m.get("c01_width"):
+            pairs, sub = (m.get("chain_pairs") or [(a, b) for a in SYNS for b in SYNS if a != b]), cs
         l1 = []
         for c in sub:
             for (a, b) in pairs:
@@ -285,6 +293,9 @@ def main(tier):
                                                    "type": c["tn"], "value": c["vs"], "command_line": l, "c": o, "expected": "OK " + c["der"]})
         if cs:
             run.sample({"type": cs[0]["ts"], "value": cs[0]["vs"][:80], "rt": "rt %s der %s" % (cs[0]["tn"], cs[0]["der"][:60])})
+        if m.get("c01_width"):
+            TIMES["width_run_s"] = round(TIMES.get("width_run_s", 0) + time.time() - tm, 1)
+    c01_width.check_oer(run, wbmods, wbcases, run_mod)
     # ------------------------------------------------------------ wide layer
     t0 = time.time()
     wide_layer(run, wmods, wrng if wmods else rng, tier)
